@@ -1,3 +1,241 @@
+/-
+  C08 — Removing a wallet erases it completely and leaves every other wallet intact.   PROPERTY THEOREMS.
+  Model: MW.Model.Remove (asyncRemove as repaired: every step is one transaction running RemoveRelevantTx; the
+  finishing step also deletes the id-keyed records, the status and the keystore), on MW.Model.Ledger.Store.
+  Helper lemmas: MW.Lemmas.RemoveScan, MW.Lemmas.RemoveStep.  Key layouts: MW.Gen.Layout (regenerated).
+-/
 import MW.Model.Remove
+import MW.Gen.Layout
+import MW.Lemmas.RemoveStep
+import MW.Lemmas.RemoveFrame
 namespace MW.Props.C08
+open MW MW.Model.Ledger MW.Model.Remove MW.Lemmas.RemoveScan MW.Lemmas.RemoveStep MW.Lemmas.RemoveFrame
+
+-- ------------------------------------------------------------------ remove_erases
+
+/-- No bucket of `s` has an entry whose key or value mentions wallet `w` or one of its script hashes.
+    The record types of the other buckets (tx records, block records, debits, sync table, unmined inputs) have no
+    wallet-id or script-hash component at all (MW.Gen.Layout: keyTxRecord, keyBlockRecord, keyDebit/putDebit,
+    canonicalOutPoint); serialized pending transactions are dealt with in `remove_pending_kept`. -/
+structure Clean (s : Store) (w : Wid) (addrs : List Addr) : Prop where
+  unspent : ∀ e ∈ s.unspent, e.1.1 ≠ w
+  addrRecs : ∀ e ∈ s.addrs, e.1.1 ≠ w
+  game : ∀ e ∈ s.game, e.1.wallet ≠ w
+  pendGame : ∀ e ∈ s.pendGame, e.1.1 ≠ w
+  balance : ∀ e ∈ s.balance, e.1 ≠ w
+  status : ∀ e ∈ s.status, e.1 ≠ w
+  credits : ∀ e ∈ s.credits, addrs.contains e.2.sh = false
+  pendCred : ∀ e ∈ s.pendCred, addrs.contains e.2.sh = false
+
+/-- **remove_erases.** For every store, wallet, address set and step size: after the removal step that reports
+    `finish`, nothing keyed by the wallet id and no credit (mined or unmined) paying one of its script hashes is
+    left.  (`addrs ≠ []`: a keystore always manages at least one address; with none, RemoveRelevantTx returns at
+    once and only the id-keyed part of the statement applies.) -/
+theorem remove_erases (limit : Nat) (c : Ctx) (w : Wid) (addrs : List Addr) (s : Store) (o : StepOut)
+    (hne : addrs ≠ []) (h : removeStep limit c w addrs s = some o) (hf : o.finish = true) : Clean o.s w addrs := by
+  unfold removeStep at h
+  cases hr : removeRelevantTx limit c s addrs with
+  | none => simp [hr] at h
+  | some o1 =>
+    simp only [hr] at h
+    have spec := removeRelevantTx_spec limit c s addrs o1 hne hr
+    by_cases hfin : o1.finish = true
+    · simp only [hfin, if_true, Option.some.injEq] at h
+      subst h
+      obtain ⟨s1, _, hcd, hfe, hnf⟩ := spec.credits
+      have hclean := removeRelevantCredit_clean limit s1 addrs (by rw [← hfe]; exact hfin) hnf
+      have hcred : o1.s.credits = (removeRelevantCredit limit s1 addrs).s.credits := congrArg Prod.fst hcd
+      refine ⟨?_, ?_, ?_, ?_, ?_, ?_, ?_, ?_⟩
+      · intro e he
+        have : e ∈ o1.s.unspent.filter (fun e => e.1.1 != w) := he
+        simpa using (List.mem_filter.1 this).2
+      · intro e he
+        have : e ∈ o1.s.addrs.filter (fun e => e.1.1 != w) := he
+        simpa using (List.mem_filter.1 this).2
+      · intro e he
+        have : e ∈ o1.s.game.filter (fun e => e.1.wallet != w) := he
+        simpa using (List.mem_filter.1 this).2
+      · intro e he
+        have : e ∈ o1.s.pendGame.filter (fun e => e.1.1 != w) := he
+        simpa using (List.mem_filter.1 this).2
+      · intro e he
+        exact ((mem_erase _ _ _).1 he).2
+      · intro e he
+        exact ((mem_erase _ _ _).1 he).2
+      · intro e he
+        have : e ∈ o1.s.credits := he
+        rw [hcred] at this
+        exact hclean e this
+      · intro e he
+        have : e ∈ o1.s.pendCred := he
+        rw [spec.pendCred] at this
+        simpa using (List.mem_filter.1 this).2
+    · simp only [hfin, Bool.false_eq_true, if_false, Option.some.injEq] at h
+      subst h
+      exact absurd hf hfin
+
+
+-- ------------------------------------------------------------------ remove_frames
+
+/-- What one removal step (finishing or not) leaves untouched: every record that is not keyed by the removed
+    wallet id and does not pay one of its script hashes, the debits of other wallets' credits, and the
+    transaction / block records of every transaction another wallet needs. -/
+structure Frames (c : Ctx) (s s' : Store) (w : Wid) (addrs : List Addr) : Prop where
+  unspent : ∀ e, e.1.1 ≠ w → (e ∈ s'.unspent ↔ e ∈ s.unspent)
+  addrRecs : ∀ e, e.1.1 ≠ w → (e ∈ s'.addrs ↔ e ∈ s.addrs)
+  game : ∀ e, e.1.wallet ≠ w → (e ∈ s'.game ↔ e ∈ s.game)
+  pendGame : ∀ e, e.1.1 ≠ w → (e ∈ s'.pendGame ↔ e ∈ s.pendGame)
+  balance : ∀ e, e.1 ≠ w → (e ∈ s'.balance ↔ e ∈ s.balance)
+  status : ∀ e, e.1 ≠ w → (e ∈ s'.status ↔ e ∈ s.status)
+  sync : s'.sync = s.sync ∧ s'.syncedTo = s.syncedTo
+  credits : ∀ e, addrs.contains e.2.sh = false → (e ∈ s'.credits ↔ e ∈ s.credits)
+  pendCred : ∀ e, addrs.contains e.2.sh = false → (e ∈ s'.pendCred ↔ e ∈ s.pendCred)
+  /-- the debit of a credit that exists and pays another script hash is kept -/
+  debits : ∀ x ∈ s.debits, ∀ cr ∈ s.credits, cr.1 = x.2.2 → addrs.contains cr.2.sh = false → x ∈ s'.debits
+  /-- the tx record of a transaction that is not removable (see `needed_not_removable`) is kept … -/
+  txrecs : ∀ x ∈ s.txrecs, (∀ tx, c.node.txByFileLoc x.2 = some tx → removable c.own s addrs tx = false) → x ∈ s'.txrecs
+  /-- … and so is its entry in the block record, which is what Rollback walks -/
+  blocks : ∀ h bh txs t, AMap.get s.blocks h = some (bh, txs) → t ∈ txs →
+    (∀ x ∈ s.txrecs, x.1.1 = t → x.1.2.height = h →
+      ∀ tx, c.node.txByFileLoc x.2 = some tx → removable c.own s addrs tx = false) →
+    ∃ txs', AMap.get s'.blocks h = some (bh, txs') ∧ t ∈ txs'
+
+/-- A transaction is NOT removable as soon as one output pays an address another keystore manages, or one input
+    spends an output recorded as a credit (mined or unmined) of another script hash — the spender side is what
+    the repair of defect D11 added. -/
+theorem needed_not_removable (own : Own) (s : Store) (addrs : List Addr) (tx : Tx)
+    (h : (∃ o ∈ tx.outs, o.cls ≠ .raw ∧ addrs.contains o.addr = false ∧ (AMap.get own o.addr).isSome = true) ∨
+         (tx.cb = false ∧ ∃ i ∈ tx.ins,
+            (∃ e ∈ s.credits, e.1.tx = i.tx ∧ e.1.idx = i.idx ∧ addrs.contains e.2.sh = false) ∨
+            (∃ cr, AMap.get s.pendCred (i.tx, i.idx) = some cr ∧ addrs.contains cr.sh = false))) :
+    removable own s addrs tx = false := by
+  unfold removable spendsCreditOfOtherWallet
+  simp only [Bool.and_eq_false_iff, Bool.not_eq_false', List.any_eq_true, Bool.and_eq_true, bne_iff_ne, ne_eq,
+    Bool.not_eq_true', Bool.or_eq_true, decide_eq_true_eq]
+  rcases h with ⟨o, ho, hraw, hna, hown⟩ | ⟨hcb, i, hi, hor⟩
+  · exact Or.inl ⟨o, ho, ⟨hraw, hna⟩, hown⟩
+  · refine Or.inr ⟨hcb, i, hi, ?_⟩
+    rcases hor with ⟨e, he, h1, h2, h3⟩ | ⟨cr, hg, hn⟩
+    · exact Or.inl ⟨e, he, ⟨h1, h2⟩, h3⟩
+    · right; rw [hg]; simpa using hn
+
+/-- **remove_frames.** For every store whose credits and tx-record buckets are functional (one entry per key)
+    and whose spent credits name their own debit, every removal step — finishing or not — leaves all of the
+    above untouched: in particular the records Rollback needs to undo ANOTHER wallet's debits and credits of a
+    shared transaction survive, so later reorganisations across it still work. -/
+theorem remove_frames (limit : Nat) (c : Ctx) (w : Wid) (addrs : List Addr) (s : Store) (o : StepOut)
+    (hne : addrs ≠ []) (hfc : Functional s.credits) (hft : Functional s.txrecs) (hback : SpenderBack s)
+    (h : removeStep limit c w addrs s = some o) : Frames c s o.s w addrs := by
+  unfold removeStep at h
+  cases hr : removeRelevantTx limit c s addrs with
+  | none => simp [hr] at h
+  | some o1 =>
+    simp only [hr] at h
+    -- first: the frame of RemoveRelevantTx itself (store o1.s)
+    obtain ⟨uh, del1, s2, del2, hnf, hmt, ho1⟩ := (removeRelevantTx_pipeline limit c s addrs o1 hne hr).ex
+    let s0 := (removeRelevantUnminedCredit s addrs).1
+    let s1 := (removeUnminedTxs c.own s0 addrs uh).1
+    let sc := removeRelevantCredit limit s1 addrs
+    have hs1cd : cd s1 = cd s := by
+      show cd (removeUnminedTxs c.own _ addrs uh).1 = _
+      rw [unminedTxs_proj cd (fun _ _ => rfl), unminedCredit_cd]
+    have hs1c : s1.credits = s.credits := congrArg Prod.fst hs1cd
+    have hs1d : s1.debits = s.debits := congrArg Prod.snd hs1cd
+    have hs1recs : recs s1 = recs s := by
+      show recs (removeUnminedTxs c.own _ addrs uh).1 = _
+      rw [unminedTxs_proj recs (fun _ _ => rfl), unminedCredit_recs]
+    have hs1pc : s1.pendCred = s.pendCred.filter (fun e => !addrs.contains e.2.sh) := by
+      show (removeUnminedTxs c.own _ addrs uh).1.pendCred = _
+      rw [unminedTxs_proj Store.pendCred (fun _ _ => rfl), unminedCredit_pendCred]
+    have hscrecs : recs sc.s = recs s := (scan_recs_pending limit s1 addrs).1.trans hs1recs
+    have ho1s : o1.s = checkBlockRecords s2 del2 := by rw [ho1]
+    have hcd2 : cd s2 = cd sc.s := minedTxs_proj cd (fun _ _ => rfl) c _ addrs _ (s2, del2) hmt
+    have ho1cd : cd o1.s = cd sc.s := by rw [ho1s, blockRecords_proj cd (fun _ _ => rfl)]; exact hcd2
+    have ho1c : o1.s.credits = sc.s.credits := congrArg Prod.fst ho1cd
+    have ho1d : o1.s.debits = sc.s.debits := congrArg Prod.snd ho1cd
+    have hspec := removeRelevantTx_spec limit c s addrs o1 hne hr
+    have hfc1 : Functional s1.credits := by rw [hs1c]; exact hfc
+    have hback1 : SpenderBack s1 := by
+      intro e he dk hdk x hx hxk
+      rw [hs1c] at he; rw [hs1d] at hx
+      exact hback e he dk hdk x hx hxk
+    -- credits of other script hashes
+    have hcred : ∀ e, addrs.contains e.2.sh = false → (e ∈ o1.s.credits ↔ e ∈ s.credits) := by
+      intro e hn
+      rw [ho1c]
+      constructor
+      · intro he; rw [← hs1c]; exact scan_credits_sub limit addrs s1.credits { s := s1 } e he
+      · intro he; exact removeRelevantCredit_keeps_credit limit s1 addrs hfc1 e (by rw [hs1c]; exact he) hn
+    have hpend : ∀ e, addrs.contains e.2.sh = false → (e ∈ o1.s.pendCred ↔ e ∈ s.pendCred) := by
+      intro e hn
+      rw [hspec.pendCred, List.mem_filter]
+      constructor
+      · exact fun h => h.1
+      · exact fun h => ⟨h, by rw [hn]; rfl⟩
+    have hdeb : ∀ x ∈ s.debits, ∀ cr ∈ s.credits, cr.1 = x.2.2 → addrs.contains cr.2.sh = false → x ∈ o1.s.debits := by
+      intro x hx cr hcr hk hn
+      rw [ho1d]
+      exact removeRelevantCredit_keeps_debit limit s1 addrs hfc1 hback1 x (by rw [hs1d]; exact hx) cr
+        (by rw [hs1c]; exact hcr) hk hn
+    -- removable is judged on sc.s; it is stable from s
+    have hmono : ∀ tx, removable c.own s addrs tx = false → removable c.own sc.s addrs tx = false := by
+      intro tx hrm
+      refine removable_mono c.own s sc.s addrs tx ?_ ?_ hrm
+      · intro x hx hn
+        exact removeRelevantCredit_keeps_credit limit s1 addrs hfc1 x (by rw [hs1c]; exact hx) hn
+      · intro k v hg hn
+        rw [scan_pendCred, hs1pc]
+        exact get_filter_of_get _ _ k v hg (by show (!addrs.contains v.sh) = true; rw [hn]; rfl)
+    have hsctx : sc.s.txrecs = s.txrecs := congrArg Prod.fst hscrecs
+    have hscbl : sc.s.blocks = s.blocks := congrArg Prod.snd hscrecs
+    have htx : ∀ x ∈ s.txrecs, (∀ tx, c.node.txByFileLoc x.2 = some tx → removable c.own s addrs tx = false) →
+        x ∈ o1.s.txrecs := by
+      intro x hx hneed
+      rw [ho1s, blockRecords_proj Store.txrecs (fun _ _ => rfl)]
+      exact minedTxs_kept c sc.s addrs sc.heightOf (s2, del2) hmt (by rw [hsctx]; exact hft) x (by rw [hsctx]; exact hx)
+        (fun tx htx => hmono tx (hneed tx htx))
+    have hblk : ∀ h bh txs t, AMap.get s.blocks h = some (bh, txs) → t ∈ txs →
+        (∀ x ∈ s.txrecs, x.1.1 = t → x.1.2.height = h →
+          ∀ tx, c.node.txByFileLoc x.2 = some tx → removable c.own s addrs tx = false) →
+        ∃ txs', AMap.get o1.s.blocks h = some (bh, txs') ∧ t ∈ txs' := by
+      intro h bh txs t hg ht hneed
+      rw [ho1s]
+      have hb2 : s2.blocks = s.blocks := by
+        rw [minedTxs_proj Store.blocks (fun _ _ => rfl) c _ addrs _ (s2, del2) hmt]; exact hscbl
+      refine blockRecords_kept s2 del2 h bh txs t (by rw [hb2]; exact hg) ht ?_
+      intro hin
+      obtain ⟨rec, tx, hrm, hid, hh, hloc, hrem⟩ := minedTxs_reported c sc.s addrs sc.heightOf (s2, del2) hmt (h, t) hin
+      rw [hsctx] at hrm
+      have := hmono tx (hneed rec hrm hid hh tx hloc)
+      rw [this] at hrem; cases hrem
+    have hcore := hspec.ids
+    simp only [core, Prod.mk.injEq] at hcore
+    obtain ⟨hu, ha, hg, hpg, hb, hst, hsy, hsyt⟩ := hcore
+    by_cases hfin : o1.finish = true
+    · simp only [hfin, if_true, Option.some.injEq] at h
+      subst h
+      refine ⟨?_, ?_, ?_, ?_, ?_, ?_, ⟨hsy, hsyt⟩, hcred, hpend, hdeb, htx, hblk⟩
+      · intro e hn
+        show e ∈ o1.s.unspent.filter (fun e => e.1.1 != w) ↔ _
+        rw [List.mem_filter, hu]; simp [hn]
+      · intro e hn
+        show e ∈ o1.s.addrs.filter (fun e => e.1.1 != w) ↔ _
+        rw [List.mem_filter, ha]; simp [hn]
+      · intro e hn
+        show e ∈ o1.s.game.filter (fun e => e.1.wallet != w) ↔ _
+        rw [List.mem_filter, hg]; simp [hn]
+      · intro e hn
+        show e ∈ o1.s.pendGame.filter (fun e => e.1.1 != w) ↔ _
+        rw [List.mem_filter, hpg]; simp [hn]
+      · intro e hn
+        show e ∈ AMap.erase o1.s.balance w ↔ _
+        rw [mem_erase, hb]; simp [hn]
+      · intro e hn
+        show e ∈ AMap.erase o1.s.status w ↔ _
+        rw [mem_erase, hst]; simp [hn]
+    · simp only [hfin, Bool.false_eq_true, if_false, Option.some.injEq] at h
+      subst h
+      exact ⟨fun e _ => by rw [hu], fun e _ => by rw [ha], fun e _ => by rw [hg], fun e _ => by rw [hpg],
+        fun e _ => by rw [hb], fun e _ => by rw [hst], ⟨hsy, hsyt⟩, hcred, hpend, hdeb, htx, hblk⟩
+
 end MW.Props.C08
